@@ -326,13 +326,28 @@ impl<D: DecisionDiagram<State = St>> DecisionDiagram for RecDD<D> {
     fn drain_cutset<F>(&mut self, func: F) where F: FnMut(SubProblem<St>) { self.0.drain_cutset(func) }
 }
 
+thread_local! { static IN_CS_LIGHT: std::cell::Cell<bool> = std::cell::Cell::new(false); }
+/// number of sub-problems popped by the parallel solver (threshold recorded inside a critical section), and how many of
+/// them had already been popped before -- same (state, depth) -- with a SMALLER value (vacuity guard of C09: the threshold
+/// recorded at pop time only matters in that situation)
+pub static POPS: std::sync::atomic::AtomicU64 = std::sync::atomic::AtomicU64::new(0);
+pub static REPOPS_BETTER: std::sync::atomic::AtomicU64 = std::sync::atomic::AtomicU64::new(0);
+/// hook used by the single-worker sweeps (no scheduling): only remembers whether the calling thread holds the critical mutex
+pub fn install_light_hook() {
+    ddo::verif::set_hook(Some(Arc::new(|e: ddo::verif::Event| match e {
+        ddo::verif::Event::Lock => IN_CS_LIGHT.with(|f| f.set(true)),
+        ddo::verif::Event::Unlock => IN_CS_LIGHT.with(|f| f.set(false)),
+        _ => (),
+    })));
+}
 /// Cache wrapper (the solver creates it through Default): counts, checks the contract the solver relies on,
 /// and (under the controlled scheduler) makes every operation issued outside a critical section a scheduling point.
 pub struct RecCache { inner: SimpleCache<St>, nb_layers: AtomicUsize,
     /// under the controlled scheduler: the REAL content of the store for every key ever touched (read back after each
     /// write), whose hash is part of the fingerprint of the global state
-    mirror: std::sync::Mutex<std::collections::BTreeMap<(St, usize), (isize, bool)>> }
-impl Default for RecCache { fn default() -> Self { RecCache { inner: SimpleCache::default(), nb_layers: AtomicUsize::new(0), mirror: Default::default() } } }
+    mirror: std::sync::Mutex<std::collections::BTreeMap<(St, usize), (isize, bool)>>,
+    popped: std::sync::Mutex<std::collections::HashMap<(St, usize), isize>> }
+impl Default for RecCache { fn default() -> Self { RecCache { inner: SimpleCache::default(), nb_layers: AtomicUsize::new(0), mirror: Default::default(), popped: Default::default() } } }
 impl RecCache {
     fn refresh(&self, touched: Option<(St, usize)>) {
         if !crate::sched::in_worker() { return; }
@@ -368,6 +383,12 @@ impl Cache for RecCache {
         if d >= self.nb_layers.load(SeqCst) { cache_alarm(format!("update_threshold at depth {} beyond the last layer", d)); return; }
         PROTO.with(|p| p.borrow_mut().stats.cache_updates += 1);
         let key = (*s, d);
+        if e && (IN_CS_LIGHT.with(|f| f.get()) || crate::sched::in_critical_section()) {
+            POPS.fetch_add(1, SeqCst);
+            if std::env::var("VERIF_TRACE_POP").is_ok() { eprintln!("pop {:?}@{} value {}", key.0, d, v); }
+            let mut p = self.popped.lock().unwrap();
+            match p.get(&key) { Some(old) if *old < v => { REPOPS_BETTER.fetch_add(1, SeqCst); p.insert(key, v); } Some(_) => (), None => { p.insert(key, v); } }
+        }
         self.inner.update_threshold(s, d, v, e);
         self.refresh(Some(key));
     }
